@@ -47,7 +47,7 @@ PRELUDE_DOC = """<?xml version="1.0" encoding="UTF-8"?>
 def budget(tier):
     if tier == "quick":
         return {"examples": 1600, "shards": 16, "time_s": 60}
-    return {"examples": 32000, "shards": 16, "time_s": 900}
+    return {"examples": 128000, "shards": 16, "time_s": 1500}
 
 
 @st.composite
